@@ -179,6 +179,36 @@ def cmdCli (tbl : DbTable) (src : List Char) (exact : Bool) : String :=
       | .other w => s!"?{w}"
     "O " ++ (if items.isEmpty then "-" else "|".intercalate items) ++ " X0"
 
+/-- All error kinds, to read one back from its name. -/
+def allErrKinds : List ErrKind :=
+  [.syntaxError, .divideByZero, .lookupError, .illegalOperation, .conversionNotPossible, .illegalCast,
+   .parseRational, .badNumber, .unexpected, .expected, .missing, .illegalUnit, .missingFunction,
+   .argumentMismatch, .badArgument, .nonFinite, .missingNode, .prefixMismatch, .illegalUnitNumber,
+   .illegalPowerUnit, .illegalPowerNonInteger, .treeError]
+
+/-- One item of a result line as the harness prints it (`OK n/d unit` | `ERR kind s e`). -/
+def parseResultItem (it : String) : Except EvalErr Numeric :=
+  match it.trimAscii.toString.splitOn " " with
+  | ["OK", v, u] => .ok { value := parseRat v, unit := parseUnitCanon u }
+  | ["ERR", k, s, e] =>
+    match allErrKinds.find? (fun x => x.name == k) with
+    | some kind => .error (.err kind s.toNat! e.toNat!)
+    | none => .error (.unsupported k)
+  | _ => .error (.unsupported it)
+
+/-- `render`: the model of the binary's result loop applied to results the LIBRARY computed
+(the harness's `query` answer), so that a difference between this and what the binary
+printed is a printing fault and nothing else. -/
+def cmdRender (resultLine : String) (exact : Bool) : String :=
+  let body := if resultLine.startsWith "R " then (resultLine.drop 2).toString else resultLine
+  let rs : List (Except EvalErr Numeric) :=
+    if body.trimAscii.toString.isEmpty then [] else (body.splitOn " | ").map parseResultItem
+  let items := (Cli.render exact rs).map fun it => match it with
+    | .line t => "L" ++ hexEncode t
+    | .diagnostic k s _ => s!"D{k.name}:{s}"
+    | .other w => s!"?{w}"
+  "O " ++ (if items.isEmpty then "-" else "|".intercalate items) ++ " X0"
+
 /-! ### `cbor` -/
 def bytesHex (b : List Nat) : String :=
   if b.isEmpty then "-" else String.ofList (b.flatMap fun x => [hexDigit (x / 16), hexDigit (x % 16)])
@@ -470,6 +500,7 @@ def dispatch (tbl : DbTable) (line : String) : String :=
   | ["unit", h] => cmdUnit (hexDecode h)
   | "cbor" :: args => cmdCbor args
   | ["cli", h, mode] => cmdCli tbl (hexDecode h) (mode == "exact")
+  | ["render", h, mode] => cmdRender (String.ofList (hexDecode h)) (mode == "exact")
   | ["unitw", h] => cmdUnitw (hexDecode h)
   | ["factor", a, b, v] => cmdFactor a b v
   | ["mul", a, b, n, l, r] => cmdMul a b n l r
